@@ -13,9 +13,9 @@
    the structure alone.  Proofs: proofs/SpecMechProofs.v, proofs/SpecTextProofs.v,
    proofs/SpecDocProofs.v. *)
 Require Import GM.model.Base GM.model.Util GM.model.UtilI GM.model.Ids GM.model.SpecMech GM.model.SpecDoc
-               GM.model.HtmlWriter GM.model.Refs GM.model.Blocks GM.model.Reader GM.model.ListItem GM.model.LeafBlocks GM.model.Delim GM.model.DelimI.
+               GM.model.HtmlWriter GM.model.Refs GM.model.Blocks GM.model.Reader GM.model.ListItem GM.model.LeafBlocks GM.model.Delim GM.model.DelimI GM.model.CodeSpan.
 Require Import GM.gen.Tables GM.gen.Entities.
-Require Import GM.proofs.SpecMechProofs GM.proofs.SpecTextProofs GM.proofs.SpecDocProofs GM.proofs.SpecTabProofs GM.proofs.ListItemProofs GM.proofs.LeafBlocksProofs GM.proofs.DelimProofs.
+Require Import GM.proofs.SpecMechProofs GM.proofs.SpecTextProofs GM.proofs.SpecDocProofs GM.proofs.SpecTabProofs GM.proofs.ListItemProofs GM.proofs.LeafBlocksProofs GM.proofs.DelimProofs GM.proofs.CodeSpanProofs.
 Open Scope N_scope.
 
 (* the hard-break test (parser.go, after the fix) looks at the parity of the final run of
@@ -228,6 +228,34 @@ Theorem C02_generated_delimiters_unambiguous : forall u bp bw aw ap,
 Proof. exact (fun u bp bw aw ap => conj (after_space_opens_only u bp aw ap) (conj (before_space_closes_only u bw bp ap)
               (conj (punct_then_letter_opens_only u) (letter_then_punct_closes_only u)))). Qed.
 Print Assumptions C02_generated_delimiters_unambiguous.
+
+(* ---- code spans (model of parser/code_span.go over the block reader) ---- *)
+
+(* in a one-line paragraph, a code span spelled with t backticks on each side and optional
+   padding of one blank yields a CodeSpan whose text is exactly the content, and the reader is
+   left just after the closing run (content: every backtick run shorter than t, first and last
+   byte neither blank nor backtick) *)
+Theorem C02_code_span_spellings_partial : forall (pre c rest : bytes) (t : nat) (padded : bool) (first last : N) (mid : bytes),
+  (1 <= t)%nat -> runs_shorter t 0 c = true ->
+  c = first :: mid ++ [last] \/ (c = [first] /\ last = first) ->
+  first <> 96 -> last <> 96 -> first <> 32 -> last <> 32 -> IsSpace first = false ->
+  no_newline pre -> no_newline c -> no_newline rest ->
+  (match rest with 96 :: _ => False | _ => True end) ->
+  let pad := if padded then [32] else [] in
+  let src := pre ++ repeat 96 t ++ pad ++ c ++ pad ++ repeat 96 t ++ rest ++ [10] in
+  forall r0 r, new_block_reader src [mkseg 0 (zlen src)] = Ok r0 -> b_advance r0 (zlen pre) = Ok r ->
+  exists segs r',
+    code_span_parse space_table r = Ok (inl segs, r') /\
+    concat_values src segs = Ok c /\
+    b_line r' = 0%Z /\ s_start (b_pos r') = (zlen pre + 2 * Z.of_nat t + 2 * zlen pad + zlen c)%Z /\ s_pad (b_pos r') = 0%Z.
+Proof. exact (code_span_single_line space_table eq_refl). Qed.
+Print Assumptions C02_code_span_spellings_partial.
+
+(* a line without a run of exactly t backticks does not close the span *)
+Theorem C02_code_span_no_closer_partial : forall (t : nat) (c : bytes) (fuel : nat),
+  (1 <= t)%nat -> runs_shorter t 0 c = true -> find_closer fuel c 0 (Z.of_nat t) = None.
+Proof. exact find_closer_none. Qed.
+Print Assumptions C02_code_span_no_closer_partial.
 
 (* non-vacuity: the design-time deviation (three backslashes before the line end) is a hard break *)
 Example C02_demo : line_break_kind [97; 92; 92; 92; 10] = 1 /\ line_break_kind [97; 92; 92; 10] = 3.
